@@ -7,6 +7,8 @@ import (
 	"strings"
 	"time"
 
+	"pgregory.net/rapid"
+
 	"verif/sandbox"
 )
 
@@ -124,3 +126,14 @@ func cleanPath(cwd string, segs []string) string {
 }
 
 var osReadFile = os.ReadFile
+
+// projDirPool: names for the directory that holds the spokfile. Characters that mean something to a
+// glob, a format string, a regular expression or a shell are ordinary characters of a directory name.
+var projDirPool = []string{"proj [v2]", "release{1,2}", "my proj", "a*b", "q?z", "back\\slash", "pr%sj%d", "プロジェクト", "-dash", "(paren)", "x^y+z", "proj", ".hidden-proj", "spokfile"}
+
+func genProjDir(t *rapid.T) string {
+	if rapid.IntRange(0, 2).Draw(t, "odd_proj_dir") != 0 {
+		return ""
+	}
+	return rapid.SampledFrom(projDirPool).Draw(t, "proj_dir")
+}
